@@ -7,12 +7,12 @@ use serde_json::json;
 fn model_specs(tier: Tier) -> Vec<Spec> {
     match tier {
         Tier::Quick => {
-            let mut v = vec![g(2, 2, 3, 3), g(2, 0, 3, 3), g(2, 1, 3, 3), g(1, 3, 3, 2), crate::gramsweep::gcyclic(3, 1, 3, 3), Spec::Files { k: 1, cap: 250 }, Spec::Names { extra: 2 }, Spec::Scaled { deep: false }];
+            let mut v = vec![g(2, 2, 3, 3), g(2, 0, 3, 3), g(2, 1, 3, 3), g(1, 3, 3, 2), crate::gramsweep::gcyclic(3, 1, 3, 3), Spec::Files { k: 1, cap: 250 }, Spec::Names { extra: 2 }, Spec::Scaled { deep: false }, Spec::GP(crate::scopes::Scope { n: 2, t: 1, p: 2, k: 2, symmetry: false, only_cyclic: false }), Spec::GP(crate::scopes::Scope { n: 1, t: 2, p: 2, k: 2, symmetry: false, only_cyclic: false })];
             v.extend(all_seed_nbh(1, 1, 100_000));
             v
         }
         Tier::Thorough => {
-            let mut v = vec![g(2, 2, 3, 3), g(2, 3, 4, 2), g(3, 2, 4, 2), gsym(2, 2, 4, 3), g(1, 3, 4, 3), Spec::Files { k: 1, cap: 3000 }, Spec::Names { extra: 2 }, Spec::Scaled { deep: true }];
+            let mut v = vec![g(2, 2, 3, 3), g(2, 3, 4, 2), g(3, 2, 4, 2), gsym(2, 2, 4, 3), g(1, 3, 4, 3), Spec::Files { k: 1, cap: 3000 }, Spec::Names { extra: 2 }, Spec::Scaled { deep: true }, Spec::GP(crate::scopes::Scope { n: 2, t: 1, p: 2, k: 2, symmetry: false, only_cyclic: false }), Spec::GP(crate::scopes::Scope { n: 1, t: 2, p: 2, k: 2, symmetry: false, only_cyclic: false }), Spec::GP(crate::scopes::Scope { n: 2, t: 2, p: 2, k: 2, symmetry: true, only_cyclic: false })];
             v.extend(all_seed_nbh(2, 1, 60_000));
             v
         }
@@ -24,12 +24,12 @@ fn real_specs(tier: Tier, property: &str) -> Vec<Spec> {
         // C02's own space is the presentation space; the rotating presentations of the grammar scopes come on top
         return match tier {
             Tier::Quick => {
-                let mut v = vec![Spec::PSpace { max_fields: 3, recursion: true }, Spec::Files { k: 0, cap: 0 }, Spec::Names { extra: 1 }, Spec::Scaled { deep: false }];
+                let mut v = vec![Spec::PSpace { max_fields: 3, recursion: true }, Spec::Files { k: 0, cap: 0 }, Spec::Names { extra: 1 }, Spec::Scaled { deep: false }, Spec::GP(crate::scopes::Scope { n: 1, t: 2, p: 2, k: 2, symmetry: false, only_cyclic: false })];
                 v.extend(all_seed_nbh(0, 0, 1));
                 v
             }
             Tier::Thorough => {
-                let mut v = vec![Spec::PSpace { max_fields: 3, recursion: true }, Spec::Files { k: 0, cap: 0 }, Spec::Names { extra: 1 }, Spec::Scaled { deep: false }, g(2, 2, 3, 2), g(1, 2, 3, 3), g(2, 2, 2, 3)];
+                let mut v = vec![Spec::PSpace { max_fields: 3, recursion: true }, Spec::Files { k: 0, cap: 0 }, Spec::Names { extra: 1 }, Spec::Scaled { deep: false }, Spec::GP(crate::scopes::Scope { n: 1, t: 2, p: 2, k: 2, symmetry: false, only_cyclic: false }), Spec::GP(crate::scopes::Scope { n: 2, t: 1, p: 2, k: 2, symmetry: false, only_cyclic: false }), g(2, 2, 3, 2), g(1, 2, 3, 3), g(2, 2, 2, 3)];
                 v.extend(all_seed_nbh(1, 1, 600));
                 v
             }
